@@ -48,8 +48,17 @@ def _not_mine():
 def _dist_ext():
     """externals modelling library distribution constructors as opaque objects carrying their argument roles."""
     def ctor(name):
+        roles = {"Poisson": ["rate"], "Normal": ["loc", "scale"]}.get(name, [])  # torch.distributions and tfp.distributions name their parameters alike
+
         def f(args, kw):
-            parts = [str(to_poly(a)) for a in args] + [f"{k}={to_poly(v)}" for k, v in sorted(kw.items()) if k not in ("validate_args",)]
+            kw = dict(kw)
+            pos = list(args)
+            for r_ in roles[len(pos):]:  # keyword actuals in the library's own parameter order ARE the positional ones
+                if r_ in kw:
+                    pos.append(kw.pop(r_))
+                else:
+                    break
+            parts = [str(to_poly(a)) for a in pos] + [f"{k}={to_poly(v)}" for k, v in sorted(kw.items()) if k not in ("validate_args", "allow_nan_stats", "name")]
             return Obj(f"{name}[{','.join(parts)}]")
         return f
     return {"Poisson": ctor("Poisson"), "Normal": ctor("Normal"), "broadcast_all": lambda a, k: tuple(a),
